@@ -303,6 +303,11 @@ def _run(scn, log: EventLog, stats: Stats):
                     stats.probe("baseline-unsupported:" + b)
                     log.emit(b, "baseline-raises", {"upto": upto, "exc": type(ex).__name__})
                     continue
+                if getattr(base, "shape", (0,))[0] > 8000:
+                    # safety net (the generator bounds sizes already): a blown-up intermediate makes the run slow, not wrong
+                    stats.probe("intermediate-too-large-scenario-stopped")
+                    alive = {k_: False for k_ in alive}
+                    break
                 bcols, brows = ordered_rows(base)
                 bcanon = canon_table(base)
                 log.emit(b, "baseline", {"upto": upto, "canon": bcanon})
